@@ -102,9 +102,12 @@ End G.
 
 (* which rules reject the probe request of their module (harness/internal/rulesh: Blocks) *)
 Definition flow_blocks (r : frule) : bool :=
-  (f_thr r =? 0)%float && (f_tcs r =? 0) && (f_cb r =? 0) && (f_rel r =? 0).
+  (f_thr r =? 0)%float && (f_tcs r =? 0).   (* reject: 0+1 > 0 on whichever node it reads; throttling: threshold <= 0 *)
 Definition iso_blocks (r : irule) : bool := i_thr r <? 5.          (* the probe is a batch of 5 *)
-Definition hot_blocks (r : hrule) : bool := h_thr r =? 0.
+(* the probe carries two arguments and the attachment key: the rule finds its parameter iff it has a
+   param key or a param index in -2..1 *)
+Definition hot_blocks (r : hrule) : bool :=
+  (h_thr r =? 0) && (negb (h_pkey r =? 0) || ((-2 <=? h_pidx r) && (h_pidx r <=? 1))).
 (* the breaker opens on the completion of one failed request with response time 0 *)
 Definition brk_blocks (r : brule) : bool :=
   (b_minreq r <=? 1)
